@@ -117,6 +117,7 @@ type vLeafSpec struct {
 	target string
 	idx    []string
 	origin bool // idx[0] is an origin carried in the prefix
+	keyed  bool // the first path element carries two keys k1, k2 whose values are the two index entries after its name
 	noti   *pb.Notification
 }
 
@@ -128,6 +129,11 @@ func (l vLeafSpec) notification(ts, v int64) *pb.Notification {
 		elems = l.idx[1:]
 	}
 	var pe []*pb.PathElem
+	if l.keyed {
+		// index [name, v1, v2, rest...] = element name{k1: v1, k2: v2} followed by plain elements
+		pe = append(pe, &pb.PathElem{Name: elems[0], Key: map[string]string{"k2": elems[2], "k1": elems[1]}})
+		elems = elems[3:]
+	}
 	for _, e := range elems {
 		pe = append(pe, &pb.PathElem{Name: e})
 	}
